@@ -67,7 +67,10 @@
      eigen_criteria_shift, eigen_criteria_order   aic_eigen / mdl_eigen exactly as coded (criteria.py): s -> m*s adds the same constant
                         (2 N ln m, N ln m) to every entry, so every comparison made by numpy.argmin -- the subspace dimension chosen by
                         eigen() under criteria='aic'/'mdl' -- is unchanged (formula-level model over the reals, positive singular values)
-   NOT PROVED here (search on the implementation only): DaniellPeriodogram, arcovar_marple / modcovar_marple recursions
+     daniell_smooth_scale, daniell_scale   DaniellPeriodogram (Model/Daniell.v, tied here by exact and binary64 correspondence): the
+                        smoother is linear in the bins, hence DaniellPeriodogram(c*x) = |c|^2 DaniellPeriodogram(x) for ANY c, every P, NFFT,
+                        window, detrend / scale_by_freq value, real and complex layout (pdaniell stores that array as it is: class_scale)
+   NOT PROVED here (search on the implementation only): arcovar_marple / modcovar_marple recursions
    (in arma_estimate they enter as the oracle [lsm]: the theorem assumes that arcovar_marple, like any solver of the normal
    equations of a full-rank system, does not see a common factor of its input); the link between the real-number model of aic_eigen / mdl_eigen
    (eigen_criteria_shift, eigen_criteria_order) and the oracle argument [amin] of the Eigen model is by inspection;
@@ -84,7 +87,7 @@ Require Import Spectrum.Theory.Ops Spectrum.Theory.Sum Spectrum.Theory.Vec Spect
                Spectrum.Proofs.ScalePeriodogram_C03 Spectrum.Proofs.ScaleYule_C03 Spectrum.Proofs.ScaleLs_C03
                Spectrum.Proofs.ScaleMinvar_C03 Spectrum.Proofs.ScaleMtm_C03 Spectrum.Proofs.ScaleEigen_C03
                Spectrum.Proofs.ScaleClass_C03 Spectrum.Proofs.MtmExample
-               Spectrum.Proofs.ArmaEstNondeg Spectrum.Proofs.ScaleArma_C03
+               Spectrum.Proofs.ArmaEstNondeg Spectrum.Proofs.ScaleArma_C03 Spectrum.Model.Daniell Spectrum.Proofs.ScaleDaniell_C03
                Spectrum.Instances.QcC Spectrum.Instances.QcCOrd Spectrum.Instances.QcCTw.
 
 Section C03.
@@ -362,6 +365,14 @@ Theorem pma_scale tw c (x : list F) Q M twopi sampling NFFT real sbf : c <> 0 ->
   (forall b rho, ArmaEst.ma x Q M = inr (b, rho) -> nonzero_data x) ->
   pma_call tw (vscale c x) Q M twopi sampling NFFT real sbf = call_scaled (nrm2 c) (pma_call tw x Q M twopi sampling NFFT real sbf).
 Proof. exact (pma_scale_thm tw c x Q M twopi sampling NFFT real sbf). Qed.
+
+(* ---------------- DaniellPeriodogram ---------------- *)
+Theorem daniell_smooth_scale s (psd : list F) P : daniell_smooth (vscale s psd) P = vscale s (daniell_smooth psd P).
+Proof. exact (daniell_smooth_scale_thm s psd P). Qed.
+
+Theorem daniell_scale tw twopi c (x w : list F) P NFFT isreal dt sbf fs :
+  daniell tw twopi (vscale c x) w P NFFT isreal dt sbf fs = vscale (nrm2 c) (daniell tw twopi x w P NFFT isreal dt sbf fs).
+Proof. exact (daniell_scale_thm tw twopi c x w P NFFT isreal dt sbf fs). Qed.
 End C03.
 
 Theorem log_criteria_homogeneous (N s r1 r2 k1 k2 : R) : (0 < s -> 0 < r1 -> 0 < r2 ->
@@ -554,6 +565,13 @@ Proof.
            (fun s y p Hs => @ls_cov_homogeneous _ qcc_ops qcc_laws qcc_ord c03_tol s y p Hs) c03_cov_nondeg).
 Qed.
 
+Example daniell_scale_example :
+  @daniell _ qcc_ops tw4 c03_twopi (@vscale _ qcc_ops c03_c c03_x4) c03_w4 1 (Some 4%nat) false PyTrue PyTrue c03_fs
+  = @vscale _ qcc_ops (@nrm2 _ qcc_ops c03_c) (@daniell _ qcc_ops tw4 c03_twopi c03_x4 c03_w4 1 (Some 4%nat) false PyTrue PyTrue c03_fs)
+  /\ (length (@daniell _ qcc_ops tw4 c03_twopi c03_x4 c03_w4 1 (Some 4%nat) false PyTrue PyTrue c03_fs) =? 2)%nat
+     && nonzero_list (@daniell _ qcc_ops tw4 c03_twopi c03_x4 c03_w4 1 (Some 4%nat) false PyTrue PyTrue c03_fs) = true.
+Proof. split; [exact (@daniell_scale _ qcc_ops qcc_laws tw4 c03_twopi c03_c c03_x4 c03_w4 1 (Some 4%nat) false PyTrue PyTrue c03_fs)|vm_compute; reflexivity]. Qed.
+
 Print Assumptions acorr_scale.
 Print Assumptions levinson_scale.
 Print Assumptions arburg_scale.
@@ -603,6 +621,8 @@ Print Assumptions arma_class_call_scale.
 Print Assumptions parma_scale_solvers.
 Print Assumptions parma_scale.
 Print Assumptions pma_scale.
+Print Assumptions daniell_smooth_scale.
+Print Assumptions daniell_scale.
 Print Assumptions log_criteria_homogeneous.
 Print Assumptions eigen_criteria_shift.
 Print Assumptions eigen_criteria_order.
